@@ -33,6 +33,14 @@ class Engine:
         self.trusted = set()
         self.module_cache = {}
         self.hooks = []            # observers: hook(kind, st, **info)
+        self.loop_specs = {}       # (function qualname, loop ordinal) -> loops.LoopSpec
+        self.prover = None
+        self.goal_prefix = ""
+
+    def loop_goal(self, name, st, goal):
+        if self.prover is None:
+            raise Unsupported("loop obligation without a prover")
+        self.prover.goal(f"{self.goal_prefix}/{name}", st, goal)
 
     # ------------------------------------------------------------------ helpers
     def note(self, label):
@@ -918,6 +926,22 @@ class Engine:
     def instantiate(self, st, ci, args, kwargs):
         if ci.opaque or ci.module.stdlib:
             return self.intr.instantiate_opaque(self, st, ci, args, kwargs)
+        if any(k.name == "BaseException" for k in ci.mro):
+            # a repo exception class: attributes from the `self.x = param` assignments of its __init__
+            attrs = {"args": TupleV(list(args))}
+            init = self.P.lookup_method(ci, "__init__")
+            if init is not None and not isinstance(init, tuple) and not init.cls.opaque:
+                loc = self.bind_params(init, [Const(None)] + list(args), kwargs)
+                for stmt in init.body:
+                    if (isinstance(stmt, ast.Assign) and isinstance(stmt.targets[0], ast.Attribute)
+                            and isinstance(stmt.targets[0].value, ast.Name) and stmt.targets[0].value.id == "self"
+                            and isinstance(stmt.value, ast.Name) and stmt.value.id in loc):
+                        attrs[stmt.targets[0].attr] = loc[stmt.value.id]
+                    elif isinstance(stmt, (ast.Pass, ast.Expr)):
+                        pass
+                    else:
+                        raise Unsupported(f"exception constructor {ci.name}.__init__ is not a plain field initialiser")
+            return [(st, ExcV(self.exc_type(ci.name), attrs, label=ci.name))]
         c = self.find_contract_ctor(ci)
         if c is not None:
             return c.apply(self, st, [ClassV(ci)] + list(args), kwargs)
